@@ -27,7 +27,12 @@ changes in the future.
 
 */
 use std::ops::{Bound, RangeBounds};
+#[cfg(not(nucleo_verif))]
 use std::sync::atomic::{self, AtomicBool, Ordering};
+#[cfg(nucleo_verif)]
+use std::sync::atomic::{self, Ordering};
+#[cfg(nucleo_verif)]
+use crate::verif::FlagBool as AtomicBool;
 use std::sync::Arc;
 use std::time::Duration;
 
